@@ -1033,3 +1033,16 @@ impl<'b, 'a: 'b> FmtVisitor<'a> {
         }
     }
 }
+
+#[cfg(feature = "verif-hooks")]
+pub(crate) mod verif_local {
+    use super::*;
+
+    /// `FmtVisitor::is_unknown_rustfmt_attr`.
+    pub(crate) fn is_unknown_rustfmt_attr(
+        visitor: &FmtVisitor<'_>,
+        segments: &[ast::PathSegment],
+    ) -> bool {
+        visitor.is_unknown_rustfmt_attr(segments)
+    }
+}
